@@ -71,11 +71,16 @@ package nutsdb
 
 //@ func DataFile.ReadAt
 //@   requires df != nil && df.rwManager != nil
+//@   at entry: set lastReadOff == off
+//@   ensures lastReadOff == off
 //@   ensures[C21,C09] err != nil ==> e == nil
+//@   ensures[C21] e != nil ==> fresh(e) && e.Meta != nil && fresh(e.Meta) && len(e.Meta.bucket) == e.Meta.bucketSize && len(e.Key) == e.Meta.keySize && len(e.Value) == e.Meta.valueSize &&
+//@        42 + e.Meta.keySize + e.Meta.valueSize + e.Meta.bucketSize < 4294967296
+//@   at return: assume e != nil ==> 42 + e.Meta.keySize + e.Meta.valueSize + e.Meta.bucketSize < 4294967296
 //@   at return: assert[C21] e != nil && err == nil ==> fresh(e) && e.Meta != nil && hdrOf(buf, 0, e.Meta) && e.crc == le32(buf, 0) &&
 //@        e.crc == crcOfParts(buf, e.Meta.bucket, e.Key, e.Value) &&
 //@        len(e.Meta.bucket) == e.Meta.bucketSize && len(e.Key) == e.Meta.keySize && len(e.Value) == e.Meta.valueSize
-//@   modifies nothing
+//@   modifies lastReadOff
 //@   safety[C20,C21] panics
 
 // ---- os.File as seen by the codecs (assumed contracts on the dependency)
@@ -190,7 +195,7 @@ package nutsdb
 //@   modifies nothing
 //@   pure
 //@ extern io/ioutil.ReadDir (dirname) (files, err)
-//@   ensures err == nil ==> (forall k int :: 0 <= k && k < len(files) ==> !isnil(files[k]))
+//@   ensures forall k int :: 0 <= k && k < len(files) ==> !isnil(files[k])
 //@   ensures err != nil ==> !dirListable(dirname)
 //@   ensures err == nil ==> (forall k int :: 0 <= k && k < len(files) && isDatName(fname(files[k])) ==> dirHasDat(dirname))
 //@   ensures err == nil ==> ((forall k int :: 0 <= k && k < len(files) ==> !isDatName(fname(files[k]))) ==> !dirHasDat(dirname))
@@ -221,10 +226,14 @@ package nutsdb
 //@ extern os.MkdirAll (path, perm) (err)
 //@   ensures fsMut == old(fsMut) + 1
 //@   modifies fsMut
+//@ func DB.buildBucketMetaIdx
+//@   assumed sparse mode: loads the bucket key ranges from meta/bucket/*.meta
+//@   modifies entries(db.bucketMetas)
 //@ func DB.buildIndexes
-//@   assumed replays every segment; reads and (sparse mode) writes index files; not verified as a whole
+//@   requires db != nil && db.BPTreeKeyEntryPosMap != nil && db.ActiveCommittedTxIdsIdx != nil && db.BPTreeIdx != nil && db.ActiveBPTreeIdx != nil
 //@   ensures fsMut >= old(fsMut)
 //@   modifies everything
+//@   safety[C20] panics
 //@ func NewTree
 //@   ensures fresh(result)
 //@   modifies nothing
@@ -373,6 +382,8 @@ package nutsdb
 //@ func BPTree.Insert
 //@   assumed B+ tree insertion (global ordering invariant is covered by the bounded stand-in BS1, not by contracts)
 //@   requires t != nil && h != nil && h.meta != nil
+//@   ensures forall x *Record :: old(allocated(x)) ==> (x.H == old(x.H) || x.H == h) && (x.E == old(x.E) || x.E == e)
+//@   ensures forall x *Record :: old(x.H != nil && x.H.meta != nil) ==> x.H != nil && x.H.meta != nil
 //@   modifies alltype(BPTree), alltype(Node), alltype(Record)
 
 //@ func Tx.buildBPTreeIdx
@@ -433,3 +444,100 @@ package nutsdb
 //@   at return #3: assert[C12] i == 0 ==> tx.db.ActiveFile == old(tx.db.ActiveFile) && tx.db.MaxFileID == old(tx.db.MaxFileID)
 //@   at return #5: assert[C10,C12] tx.db.ActiveFile.writeOff == off && tx.db.ActiveFile.ActualSize == off
 //@   at return #6: assert[C10,C12] tx.db.ActiveFile.writeOff == off && tx.db.ActiveFile.ActualSize == off
+
+// ---------------------------------------------------------------------------
+// Recovery: rebuilding the indexes on Open (C08, C09, C10, C19)
+//   lastReadOff   offset passed to the most recent DataFile.ReadAt (ghost)
+//@ spec ghost lastReadOff int
+
+//@ extern sort.Ints (x)
+//@   ensures forall i int, j int :: 0 <= i && i < j && j < len(x) ==> x[i] <= x[j]
+//@   modifies elems(x)
+//@ extern strings.TrimSuffix (s, suffix) (r)
+//@   modifies nothing
+//@   pure
+
+//@ func DB.setActiveFile
+//@   requires db != nil
+//@   ensures[C19,C08] err == nil ==> db.ActiveFile != nil && fresh(db.ActiveFile) && db.ActiveFile.fileID == db.MaxFileID && db.ActiveFile.rwManager != nil &&
+//@        db.ActiveFile.writeOff == 0 && db.ActiveFile.ActualSize == 0
+//@   modifies db.ActiveFile
+//@   safety[C20] panics
+
+//@ func DB.getMaxFileIDAndFileIDs
+//@   requires db != nil
+//@   ensures[C08] forall i int, j int :: 0 <= i && i < j && j < len(dataFileIds) ==> dataFileIds[i] <= dataFileIds[j]
+//@   ensures[C08] len(dataFileIds) > 0 ==> maxFileID == dataFileIds[len(dataFileIds) - 1]
+//@   ensures len(dataFileIds) == 0 ==> maxFileID == 0 && dataFileIds == nil
+//@   modifies nothing
+//@   safety[C20] panics
+//@   loops 1
+//@   loop 1: modifies nothing
+//@   loop 1: invariant -1 <= rangeindex && rangeindex < len(files) && (forall k int :: 0 <= k && k < len(files) ==> !isnil(files[k])) && sinceLoop(dataFileIds)
+
+//@ func DB.getActiveFileWriteOff
+//@   requires db != nil && db.ActiveFile != nil && db.ActiveFile.rwManager != nil && db.ActiveFile.ActualSize == 0
+//@   ensures[C09,C10] err == nil ==> off >= 0 && db.ActiveFile.ActualSize == off
+//@   modifies db.ActiveFile.ActualSize, lastReadOff
+//@   safety[C20] panics
+//@   loops 1
+//@   loop 1: modifies db.ActiveFile.ActualSize, lastReadOff
+//@   loop 1: invariant off >= 0 && db == old(db) && db.ActiveFile == old(db.ActiveFile) && db.ActiveFile.rwManager != nil && db.ActiveFile.ActualSize == off
+
+//@ func DB.parseDataFiles
+//@   requires db != nil && db.BPTreeKeyEntryPosMap != nil && db.ActiveCommittedTxIdsIdx != nil && (db.opt.EntryIdxMode == HintBPTSparseIdxMode ==> len(dataFileIds) > 0)
+//@   ensures err == nil ==> committedTxIds != nil
+//@   ensures db.opt == old(db.opt) && db.BPTreeIdx == old(db.BPTreeIdx) && db.ActiveBPTreeIdx == old(db.ActiveBPTreeIdx) && db.SetIdx == old(db.SetIdx) && db.ListIdx == old(db.ListIdx) && db.SortedSetIdx == old(db.SortedSetIdx)
+//@   ensures[C08,C10] forall k int :: 0 <= k && k < len(unconfirmedRecords) ==> unconfirmedRecords[k] != nil && unconfirmedRecords[k].H != nil && unconfirmedRecords[k].H.meta != nil
+//@   modifies everything
+//@   safety[C20] panics
+//@   loops 2
+//@   loop 1: invariant -1 <= rangeindex && db == old(db) && db.BPTreeKeyEntryPosMap != nil && committedTxIds != nil && db.opt == old(db.opt) &&
+//@        db.ActiveCommittedTxIdsIdx != nil && db.BPTreeIdx == old(db.BPTreeIdx) && db.ActiveBPTreeIdx == old(db.ActiveBPTreeIdx) && db.SetIdx == old(db.SetIdx) && db.ListIdx == old(db.ListIdx) && db.SortedSetIdx == old(db.SortedSetIdx)
+//@   loop 1: invariant forall k int :: 0 <= k && k < len(unconfirmedRecords) ==> unconfirmedRecords[k] != nil && unconfirmedRecords[k].H != nil && unconfirmedRecords[k].H.meta != nil
+//@   loop 2: invariant off >= 0 && db == old(db) && db.BPTreeKeyEntryPosMap != nil && committedTxIds != nil && f != nil && f.rwManager != nil && db.opt == old(db.opt) &&
+//@        db.ActiveCommittedTxIdsIdx != nil && db.BPTreeIdx == old(db.BPTreeIdx) && db.ActiveBPTreeIdx == old(db.ActiveBPTreeIdx) && db.SetIdx == old(db.SetIdx) && db.ListIdx == old(db.ListIdx) && db.SortedSetIdx == old(db.SortedSetIdx)
+//@   loop 2: invariant forall k int :: 0 <= k && k < len(unconfirmedRecords) ==> unconfirmedRecords[k] != nil && unconfirmedRecords[k].H != nil && unconfirmedRecords[k].H.meta != nil
+//@   at mapupdate committedTxIds: assert[C10,C08] entry.Meta.status == Committed && $key == entry.Meta.txID
+//@   at mapupdate BPTreeKeyEntryPosMap: assert[C02] $value == lastReadOff
+//@   at stored unconfirmedRecords: assert[C01,C19,C08] len(unconfirmedRecords) > 0 ==>
+//@        unconfirmedRecords[len(unconfirmedRecords) - 1].H.fileID == fID && unconfirmedRecords[len(unconfirmedRecords) - 1].H.dataPos == lastReadOff &&
+//@        unconfirmedRecords[len(unconfirmedRecords) - 1].H.meta == entry.Meta && unconfirmedRecords[len(unconfirmedRecords) - 1].H.key == entry.Key &&
+//@        (db.opt.EntryIdxMode == HintKeyValAndRAMIdxMode ==> unconfirmedRecords[len(unconfirmedRecords) - 1].E != nil &&
+//@           unconfirmedRecords[len(unconfirmedRecords) - 1].E.Key == entry.Key && unconfirmedRecords[len(unconfirmedRecords) - 1].E.Value == entry.Value && unconfirmedRecords[len(unconfirmedRecords) - 1].E.Meta == entry.Meta) &&
+//@        (db.opt.EntryIdxMode != HintKeyValAndRAMIdxMode ==> unconfirmedRecords[len(unconfirmedRecords) - 1].E == nil)
+//@   branch 10: implied-by[C09,C19] off >= db.opt.SegmentSize
+
+//@ func DB.buildBPTreeIdx
+//@   assumed open-time twin of Tx.buildBPTreeIdx (B+ tree insertion is covered by the bounded stand-in)
+//@   requires db != nil && r != nil && r.H != nil && r.H.meta != nil
+//@   ensures forall x *Record :: old(allocated(x)) ==> (x.H == old(x.H) || x.H == r.H) && (x.E == old(x.E) || x.E == r.E)
+//@   ensures forall x *Record :: old(x.H != nil && x.H.meta != nil) ==> x.H != nil && x.H.meta != nil
+//@   ensures r.H == old(r.H) && r.H.meta == old(r.H.meta) && r.H.meta.txID == old(r.H.meta.txID) && r.H.meta.ds == old(r.H.meta.ds)
+//@   modifies entries(db.BPTreeIdx), alltype(BPTree), alltype(Node), alltype(Record)
+//@ func DB.buildActiveBPTreeIdx
+//@   assumed sparse-mode open-time insertion into the active tree
+//@   requires db != nil && r != nil && r.H != nil && r.H.meta != nil
+//@   ensures forall x *Record :: old(allocated(x)) ==> (x.H == old(x.H) || x.H == r.H) && (x.E == old(x.E) || x.E == r.E)
+//@   ensures forall x *Record :: old(x.H != nil && x.H.meta != nil) ==> x.H != nil && x.H.meta != nil
+//@   ensures r.H == old(r.H) && r.H.meta == old(r.H.meta) && r.H.meta.txID == old(r.H.meta.txID) && r.H.meta.ds == old(r.H.meta.ds)
+//@   modifies alltype(BPTree), alltype(Node), alltype(Record), elems(r.H.meta.bucket)
+//@ func DB.buildOtherIdxes
+//@   assumed dispatches a set / sorted-set / list record to its open-time applier
+//@   requires db != nil && r != nil && r.H != nil && r.H.meta != nil
+//@   modifies entries(db.SetIdx), entries(db.ListIdx), entries(db.SortedSetIdx), alltype(list.List), alltype(set.Set), alltype(zset.SortedSet)
+//@ func DB.buildBPTreeRootIdxes
+//@   assumed sparse mode: loads the root index records of the sealed segments
+//@   modifies db.BPTreeRootIdxes
+
+//@ func DB.buildHintIdx
+//@   requires db != nil && db.BPTreeKeyEntryPosMap != nil && db.ActiveCommittedTxIdsIdx != nil && db.BPTreeIdx != nil && (db.opt.EntryIdxMode == HintBPTSparseIdxMode ==> len(dataFileIds) > 0 && db.ActiveBPTreeIdx != nil)
+//@   modifies everything
+//@   safety[C20] panics
+//@   loops 1
+//@   loop 1: invariant -1 <= rangeindex && rangeindex < len(unconfirmedRecords) && db == old(db) && db.opt == old(db.opt)
+//@   loop 1: invariant forall k int :: 0 <= k && k < len(unconfirmedRecords) ==> unconfirmedRecords[k] != nil && unconfirmedRecords[k].H != nil && unconfirmedRecords[k].H.meta != nil
+//@   branch 4: iff[C08,C10,C11] has(db.committedTxIds, r.H.meta.txID)
+//@   at call buildBPTreeIdx: assert[C10,C11] has(db.committedTxIds, r.H.meta.txID)
+//@   at call buildActiveBPTreeIdx: assert[C10,C11] has(db.committedTxIds, r.H.meta.txID)
+//@   at call buildOtherIdxes: assert[C10,C11,C08] has(db.committedTxIds, r.H.meta.txID)
